@@ -528,6 +528,16 @@ func c11perexec(c *an.Ctx) {
 				if !perExec(info.Types[val].Type) {
 					return
 				}
+				// a VarMap built on the spot is not the variables of an execution (Set.globals and the
+				// table of built-ins are VarMaps too): only a VarMap that comes from somewhere else counts
+				if an.TypeName(info.Types[val].Type) == "jet.VarMap" {
+					if _, isLit := val.(*ast.CompositeLit); isLit {
+						return
+					}
+					if call, ok := val.(*ast.CallExpr); ok && an.CalleeName(info, call) == "builtin.make" {
+						return
+					}
+				}
 				target := an.Unparen(lhs)
 				if ix, ok := target.(*ast.IndexExpr); ok {
 					target = an.Unparen(ix.X)
